@@ -1004,6 +1004,32 @@ theorem textObject_inRange_quote (isSpace sp : Char → Bool) (d : Doc) (h : Inv
       unfold InRange
       cases inner <;> simp <;> omega
 
+theorem textObject_inRange_repeat (isSpace sp : Char → Bool) (d : Doc) (h : Inv d) (count : Nat)
+    (last : Option (Char × Bool)) (reverse : Bool) :
+    InRange d (textObject isSpace sp d count (.repeatFind last reverse)) := by
+  have hi : d.cur ≤ d.text.length := h
+  cases last with
+  | none => simp only [textObject]; exact inRange_zero d h _
+  | some p =>
+    obtain ⟨c, bw⟩ := p
+    by_cases hdir : (if reverse then !bw else bw) = true
+    · simp only [textObject, hdir, if_true]
+      cases hf : findBwd d c true count with
+      | none => exact inRange_zero d h _
+      | some m =>
+        have := findBwd_bound d c true count m hf
+        by_cases hm : m ≠ 0
+        · simp only [hm, if_true]; apply inRange_of_start d h <;> omega
+        · simp only [hm, if_false]; exact inRange_zero d h _
+    · simp only [textObject, hdir]
+      cases hf : findFwd d c true count with
+      | none => exact inRange_zero d h _
+      | some m =>
+        have := findFwd_bound d h c true count m hf
+        by_cases hm : m ≠ 0
+        · simp only [hm, if_true]; apply inRange_of_start d h <;> omega
+        · simp only [hm, if_false]; exact inRange_zero d h _
+
 /-- every modelled motion / text object yields offsets inside the text -/
 theorem textObject_inRange (isSpace sp : Char → Bool) (d : Doc) (h : Inv d) (count : Nat) (m : Motion)
     (hm : ∀ o, m ≠ .raw o) : InRange d (textObject isSpace sp d count m) := by
@@ -1028,6 +1054,7 @@ theorem textObject_inRange (isSpace sp : Char → Bool) (d : Doc) (h : Inv d) (c
   | gg => exact (textObject_inRange_lines isSpace sp d h count).2.2.2
   | bracket l r inner => exact textObject_inRange_bracket isSpace sp d h count l r inner
   | quote q inner => exact textObject_inRange_quote isSpace sp d h count q inner
+  | repeatFind last reverse => exact textObject_inRange_repeat isSpace sp d h count last reverse
   | raw o => exact absurd rfl (hm o)
 
 /-! ### no operator ever leaves the model's domain; the cursor stays inside the text -/
@@ -1192,6 +1219,67 @@ theorem no_such_char_fails (isSpace sp : Char → Bool) (d : Doc) (count : Nat) 
       have h' : c ∉ (lineBefore d).reverse := by simpa using h
       simp [occ, occGo_nil_of_not_mem c 0 _ h', nth_nil]
     simp [textObject, this, failed, orZero]
+
+/-- `;` / `,` without a previous character find, or when the remembered character does not
+    occur in the searched direction (`,` searches opposite to the remembered direction) -/
+theorem repeat_find_fails (isSpace sp : Char → Bool) (d : Doc) (count : Nat) (c : Char) (bw reverse : Bool) :
+    textObject isSpace sp d count (.repeatFind none reverse) = failed ∧
+    ((if reverse then !bw else bw) = true → c ∉ lineBefore d →
+      textObject isSpace sp d count (.repeatFind (some (c, bw)) reverse) = failed) ∧
+    ((if reverse then !bw else bw) = false → c ∉ (lineAfter d).drop 1 →
+      textObject isSpace sp d count (.repeatFind (some (c, bw)) reverse) = failed) := by
+  refine ⟨by simp [textObject, failed], ?_, ?_⟩
+  · intro hdir h
+    have : findBwd d c true count = none := by
+      unfold findBwd
+      have h' : c ∉ (lineBefore d).reverse := by simpa using h
+      simp [occ, occGo_nil_of_not_mem c 0 _ h', nth_nil]
+    simp [textObject, hdir, this, failed]
+  · intro hdir h
+    have : findFwd d c true count = none := by
+      unfold findFwd
+      simp only [if_true]
+      split
+      · rfl
+      · rw [occ, occGo_nil_of_not_mem c 0 _ h, nth_nil]; rfl
+    have hd : ¬ ((if reverse then !bw else bw) = true) := by simp [hdir]
+    simp [textObject, hdir, this, failed]
+
+/-- direction and inclusiveness of `;` / `,` agree: a repeat that searches backwards is an
+    EXCLUSIVE motion to the left (the character under the cursor is not part of the span), a
+    repeat that searches forwards is an INCLUSIVE motion to the right (the found character is) -/
+theorem repeat_find_type (isSpace sp : Char → Bool) (d : Doc) (count : Nat) (c : Char) (bw reverse : Bool) :
+    ((if reverse then !bw else bw) = true →
+      (textObject isSpace sp d count (.repeatFind (some (c, bw)) reverse)).type = .exclusive ∧
+      (textObject isSpace sp d count (.repeatFind (some (c, bw)) reverse)).start ≤ 0) ∧
+    ((if reverse then !bw else bw) = false →
+      (textObject isSpace sp d count (.repeatFind (some (c, bw)) reverse)).start ≥ 0 ∧
+      ((textObject isSpace sp d count (.repeatFind (some (c, bw)) reverse)).start > 0 →
+        (textObject isSpace sp d count (.repeatFind (some (c, bw)) reverse)).type = .inclusive)) := by
+  constructor
+  · intro hdir
+    simp only [textObject, hdir, if_true]
+    cases hf : findBwd d c true count with
+    | none => simp
+    | some m =>
+      have := findBwd_bound d c true count m hf
+      simp only []
+      split <;> simp <;> omega
+  · intro hdir
+    have hd : ¬ ((if reverse then !bw else bw) = true) := by simp [hdir]
+    simp only [textObject, hd, if_false]
+    cases hf : findFwd d c true count with
+    | none => simp
+    | some m =>
+      have h1 : (1 : Int) ≤ m := by
+        unfold findFwd at hf
+        simp only [if_true] at hf
+        split at hf
+        · simp at hf
+        · obtain ⟨k, _, hk⟩ := Option.map_eq_some_iff.1 hf
+          omega
+      have hm : ¬ (m = 0) := by omega
+      simp [hm]; omega
 
 /-- `j` on the last line, `k` on the first line: already at the buffer boundary -/
 theorem buffer_boundary_fails (isSpace sp : Char → Bool) (d : Doc) (count : Nat) :
